@@ -18,7 +18,8 @@ pub struct Case {
 pub fn workload(ctx: &Ctx, n_generated: usize, ev: &mut Evidence) -> Vec<Case> {
     let mut cases = vec![];
     for c in corpus::corpus_b().into_iter().chain(corpus::corpus_c()) {
-        if c.comparable() && !c.diagnostics {
+        // hash-order amplifiers exist to provoke C14 divergences; they have no place in an Err==skip comparison
+        if c.comparable() && !c.diagnostics && !c.tags.iter().any(|t| t == "hash") {
             cases.push(Case { program: c.program, event: c.event });
         }
     }
@@ -105,7 +106,8 @@ pub fn run(ctx: &Ctx) -> ! {
     for (i, c) in cases.iter().enumerate() {
         let Some((t, _)) = &t_ops[i] else { continue };
         let cid = i.to_string();
-        let mut ops = vec![run_op(format!("ctl:{cid}"), true, FaultPlan::default())];
+        // two control runs: if they already disagree the program is not deterministic (C14's business) and the case is not judged
+        let mut ops = vec![run_op(format!("ctl:{cid}"), true, FaultPlan::default()), run_op(format!("ctl:{cid}"), true, FaultPlan::default())];
         for k in 0..*t as u32 {
             quad(&mut ops, &cid, &format!("at{k}"), FaultPlan { at: vec![k], ..Default::default() });
             planned += 1;
@@ -195,7 +197,10 @@ pub fn run(ctx: &Ctx) -> ! {
                     }
                 }
                 let cid = format!("{ci}n{n}");
-                let mut ops = vec![Op::Run { prog: n, event: n, fresh_runtime: true, faults: FaultPlan::default(), tag: format!("ctl:{cid}") }];
+                let mut ops = vec![
+                    Op::Run { prog: n, event: n, fresh_runtime: true, faults: FaultPlan::default(), tag: format!("ctl:{cid}") },
+                    Op::Run { prog: n, event: n, fresh_runtime: true, faults: FaultPlan::default(), tag: format!("ctl:{cid}") },
+                ];
                 let skip = FaultPlan { skip_mode: true, ..plan.clone() };
                 ops.push(Op::Clear);
                 ops.push(Op::Run { prog: n, event: n, fresh_runtime: false, faults: plan, tag: format!("fault:{cid}:m") });
